@@ -83,6 +83,10 @@ func c03(w *core.World, r *core.Report) {
 	ruleListpackStep(w, r)
 	r.Rule("R03.13", "stream expansion: the master entry's field count has a single definition", 1)
 	ruleStreamMasterFields(w, r)
+	r.Rule("R20.2", "the key-exists policy the replay paths switch on is one of the three they know: the configuration normalises to that set (shared with C20)", 2)
+	rulePolicySet(w, r)
+	r.Rule("R03.14", "nil means 'end of the packed structure' and nothing else: an element (also an empty one) is never answered with nil", 3)
+	ruleNilIsEndOnly(w, r)
 	r.Rule("R20.11", "chunks of one key are appended in order by one worker: the distributor picks the worker of a keyed entry from the key alone (shared with C20)", 1)
 	ruleChunksSameWorker(w, r)
 	r.Rule("R03.12", "the database an entry is replayed into: tracked database starts unknown/fresh, changes only with selectDB's result, and every change is sent to the target before the next entry (shared with R01.6)", 4)
@@ -1105,4 +1109,71 @@ func isTTLValue(ph *ssa.Phi) bool {
 	}
 	walk(ph)
 	return one && diff
+}
+
+// ---------------------------------------------------------------- R03.14 nil means "end of the packed structure" and nothing else
+
+// ruleNilIsEndOnly: the ziplist consumers (list, hash, zset expansion) stop at
+// the first nil that Next() hands them. An element must therefore never be
+// nil: an empty string element is an empty, non-nil slice. The chain is
+// Next -> ReadZiplistEntry2 -> SliceBuffer.Slice; each link may answer nil only
+// where it does not return normally (a panic) or, for Slice1, together with an
+// error.
+func ruleNilIsEndOnly(w *core.World, r *core.Report) {
+	afterPanic := func(ret *ssa.Return) bool {
+		// the return follows a call that reports a non-nil error by panicking (util.PanicIfErr(fmt.Errorf(…)))
+		for _, in := range ret.Block().Instrs {
+			if c, ok := in.(*ssa.Call); ok {
+				n := core.ResolveCall(c).Name
+				if strings.HasSuffix(n, "util.PanicIfErr") || strings.HasSuffix(n, ".panicIfErr") {
+					return true
+				}
+			}
+		}
+		return false
+	}
+	if f := fn(w, r, "(*pkg/util.SliceBuffer).Slice"); f != nil {
+		bad := ""
+		var pos token.Pos = f.Pos()
+		n := 0
+		for _, ret := range core.ReturnsX(f) {
+			for _, v := range core.RetVals(ret, 0) {
+				n++
+				if _, isSlice := core.Unwrap(v).(*ssa.Slice); !isSlice {
+					bad, pos = "Slice returns something other than a slice of the buffer ("+v.String()+"): a nil answer for an empty element reads as 'end of the ziplist' in every consumer, the rest of the structure is silently dropped", ret.Pos()
+				}
+			}
+		}
+		r.Check(bad == "" && n > 0, "SliceBuffer.Slice/never-nil", pos, "%s", bad)
+	}
+	if f := fn(w, r, "(*pkg/util.SliceBuffer).Slice1"); f != nil {
+		bad := ""
+		var pos token.Pos = f.Pos()
+		n := 0
+		for _, ret := range core.ReturnsX(f) {
+			if len(ret.Results) != 2 {
+				continue
+			}
+			n++
+			v, e := core.RetVal(ret, 0), core.RetVal(ret, 1)
+			if core.IsNilConst(v) && core.IsNilConst(e) {
+				bad, pos = "Slice1 answers (nil, nil): an empty element becomes indistinguishable from 'nothing there'", ret.Pos()
+			}
+		}
+		r.Check(bad == "" && n > 0, "SliceBuffer.Slice1/nil-only-with-error", pos, "%s", bad)
+	}
+	if f := fn(w, r, "pkg/redis/types.ReadZiplistEntry2"); f != nil {
+		bad := ""
+		var pos token.Pos = f.Pos()
+		n := 0
+		for _, ret := range core.ReturnsX(f) {
+			for _, v := range core.RetVals(ret, 0) {
+				n++
+				if core.IsNilConst(v) && !afterPanic(ret) {
+					bad, pos = "an entry is answered with nil on a path that returns normally: the consumers take nil for the end of the ziplist", ret.Pos()
+				}
+			}
+		}
+		r.Check(bad == "" && n > 0, "ReadZiplistEntry2/never-nil", pos, "%s", bad)
+	}
 }
